@@ -84,14 +84,35 @@ def run(ctx):
     # spelling independence downstream: two renderings of a container unit convert identically
     sub = []
     for _ in range(ctx.volume(300, 4000)):
-        m = [("Container", [("Image", "img"), ("Exec", "sh -c \"a b\" c"), ("Environment", "A=1 B=2")]), ("Service", [("Restart", "always")]),
-             ("Container", [("PodmanArgs", "--x y"), ("Label", "l=v w")])]
+        m = [("Container", [("Image", "img"), ("Exec", "sh -c \"a b\" c"), ("Environment", "A=1 B=2")]), ("Service", [("Restart", "always"), ("ExecStartPre", "/bin/echo three     four  five")]),
+             ("Container", [("PodmanArgs", "--x y"), ("Label", "l=v w"), ("HealthCmd", "\"echo a   b\"")])]
         sub.append((gen_units.render(rng, m, True), gen_units.render(rng, m, True)))
     oc = vlib.canon_records(vlib.run_impl([case_line("convert", "0", "/u/c.container", t) for pair in sub for t in pair]))
     for j, (t1, t2) in enumerate(sub):
         ctx.evaluations += 1
         if oc[2 * j] != oc[2 * j + 1]:
             ctx.failures.append({"op": "convert", "text": show(t1), "text_hex": hx(t1), "text2_hex": hx(t2), "what": "two spellings of the same content convert differently", "class": None})
+    # ... and as FILES read by the real binary (what happens to the text between the disk and the parser is part of reading a unit file)
+    import e2e, os
+    with e2e.Box() as box:
+        for j, (t1, t2) in enumerate(sub[: ctx.volume(25, 300)]):
+            svc = []
+            for tag, t in (("a", t1), ("b", t2)):
+                root = box.path("sp%d%s" % (j, tag))
+                e2e.make_tree(root, {"u/c.container": t})
+                rc, out, err = e2e.run_quadlet([os.path.join(root, "u")], os.path.join(root, "out"), dry_run=True)
+                texts_ = list(e2e.parse_dry_run(out).values())
+                lines_ = [l for l in (texts_[0] if texts_ else "").split("\n") if not l.startswith("SourcePath=")]
+                ex = [k for k, l in enumerate(lines_) if l.startswith("Exec")]
+                for k, a in zip(ex, vlib.sd_split_many([lines_[k].split("=", 1)[1].encode() for k in ex]) if ex else []):
+                    lines_[k] = lines_[k].split("=", 1)[0] + "=" + repr(vlib.canon_argv(a))          # name=value runs come out of a HashMap: sorted
+                svc.append((rc, lines_))
+            ctx.evaluations += 1
+            ctx.count("e2e_spellings")
+            if svc[0] != svc[1]:
+                d = [(x, y) for x, y in zip(svc[0][1], svc[1][1]) if x != y][:2]
+                ctx.failures.append({"op": "e2e", "text": show(t1), "text_hex": hx(t1), "text2_hex": hx(t2),
+                                     "what": "two spellings of the same content, read from files by the real binary, give different services: %s" % (d or (svc[0][0], svc[1][0]),), "class": None})
     ctx.samples = [{"text": show(t)} for t in texts[:5]]
     ctx.oblig("direct oracle: every rendering reads back as the merged model it was rendered from; two spellings convert identically",
               not [f for f in ctx.failures if f["class"] is None], "%d failures" % len([f for f in ctx.failures if f["class"] is None]))
